@@ -162,14 +162,30 @@ def ownerOf (ioDict : List (String × Name)) (c : ModCfg) : Name :=
     | none => c.name
   else c.name
 
-/-- a thread reports its first round only after the first poll of every polled module it serves -/
+/-- a communication failure (raised by the environment inside `initialReads` or a poll of a module served by thread
+`t`) happens before `t` reports its first round: the round is broken off, not completed -/
+def brokenOff (u : List ModCfg) (ioDict : List (String × Name)) (log : List Ev) (t : Name) : Bool :=
+  (log.takeWhile (· != Ev.rounddone t)).any (fun e =>
+    match e with
+    | .comfail m => u.any (fun c => c.name == m && ownerOf ioDict c == t)
+    | _ => false)
+
+/-- a thread reports its first round only after the first poll of every polled module it serves — or after a
+communication failure has broken the round off -/
 def RoundComplete (u : List ModCfg) (ioDict : List (String × Name)) (log : List Ev) : Prop :=
   ∀ c ∈ u, c.poll = true →
-    NeverAfter (· == .rounddone (ownerOf ioDict c)) (· == .firstpoll c.name) log ∧
-    (Ev.rounddone (ownerOf ioDict c) ∈ log → Ev.firstpoll c.name ∈ log)
+    brokenOff u ioDict log (ownerOf ioDict c) = true ∨
+    (NeverAfter (· == .rounddone (ownerOf ioDict c)) (· == .firstpoll c.name) log ∧
+     (Ev.rounddone (ownerOf ioDict c) ∈ log → Ev.firstpoll c.name ∈ log))
 
 instance (u : List ModCfg) (d : List (String × Name)) (log : List Ev) : Decidable (RoundComplete u d log) := by
   unfold RoundComplete; infer_instance
+
+/-- the start-up sequence of its poll thread got as far as module `c`: the round was not broken off, or `c`'s initial
+reads (which follow its configured writes) were begun before the thread reported -/
+def reachedB (u : List ModCfg) (ioDict : List (String × Name)) (log : List Ev) (c : ModCfg) : Bool :=
+  !brokenOff u ioDict log (ownerOf ioDict c) ||
+    (log.takeWhile (· != Ev.rounddone (ownerOf ioDict c))).contains (Ev.initread c.name)
 
 def isShutdown : Ev → Bool
   | .shutdown _ => true
@@ -212,8 +228,11 @@ def judge (cfg : Cfg) (o : Obs) : List String :=
   (if decide (AttachedReady o.log) then [] else ["attached_ready"]) ++
   (if badAttachmentB cfg o.ioDict && up then ["bad_attachment_reported"] else []) ++
   (if decide (NoHalfStart o) then [] else ["no_half_start"]) ++
-  (if up && !decide (WritesBeforeFirstPoll (u.filter (fun c => o.modules.contains c.name)) o.log)
+  (if up && !decide (WritesBeforeFirstPoll (u.filter (fun c => o.modules.contains c.name && reachedB u o.ioDict o.log c)) o.log)
      then ["writes_before_first_poll"] else []) ++
+  -- the same clause for the modules a start-up sequence broken off by a communication failure did not reach
+  (if up && !decide (WritesBeforeFirstPoll (u.filter (fun c => o.modules.contains c.name && !reachedB u o.ioDict o.log c)) o.log)
+     then ["writes_skipped_after_comm_failure"] else []) ++
   (if decide (ReadyAfterFirstRound o.log) && decide (RoundComplete u o.ioDict o.log) then []
      else ["ready_after_first_round"]) ++
   (if up && !decide (ShutdownOrder o.modules edges o.log) then ["shutdown_order"] else []) ++
